@@ -189,3 +189,20 @@ Definition out_tr (o : out) : tr :=
   | OFuel => Nd [Nn 9]
   end.
 Definition obs_history (h : list op) : tr := Nd (map (fun x => out_tr (snd x)) (trace init h)).
+
+(* ---- linearizability observable (interleaving tier of the harness) ----
+   A candidate (pre, a, post) is the sequential history pre ++ a :: post; its observable lists
+   the outputs of pre and post (the main task, in program order) and then the output of a (the
+   concurrent operation).  Stream numbers are not part of it: they depend on the order. *)
+Definition lin_out_tr (o : out) : tr :=
+  match o with OWatch _ => Nd [Nn 4] | _ => out_tr o end.
+Definition lin_obs (c : list op * op * list op) : tr :=
+  let '(pre, a, post) := c in
+  let s1 := run init pre in
+  let ra := step s1 a in
+  Nd (map (fun x => lin_out_tr (snd x)) (trace init pre)
+      ++ map (fun x => lin_out_tr (snd x)) (trace (fst ra) post)
+      ++ [lin_out_tr (snd ra)]).
+(* 1 iff what the implementation showed equals the model's outcome for one of the candidates *)
+Definition obs_linearizable (cands : list (list op * op * list op)) (impl : tr) : tr :=
+  Nn (if existsb (fun c => tr_eqb (lin_obs c) impl) cands then 1 else 0).
